@@ -3,10 +3,10 @@
 //! parent, static array, k-mer) x every range form x every in-bounds (a, b) x
 //! nested re-slicing x out-of-bounds just past the end.
 
-use bio_seq::kmer::Kmer;
 use bitvec::prelude::*;
 use bsv::fixture::*;
 use bsv::*;
+use bsvk::*;
 use serde::{Deserialize, Serialize};
 use serde_json::json;
 use std::marker::PhantomData;
@@ -59,42 +59,29 @@ fn gen(t: Tier, _seed: u64, emit: &mut dyn FnMut(Case)) {
 fn run(c: &Case, out: &mut Out) {
     match c {
         Case::View { cid, .. } | Case::Owned { cid, .. } | Case::Array { cid, .. } => dispatch!(*cid, run_g(c, out)),
-        Case::KmerDeref { cid, k } => {
-            let mut v = KV { out };
-            if !dispatch_k(*cid, Sid::Usize, *k, &mut v) {
-                v.out.violation("MACHINERY/k-does-not-fit", format!("{cid:?} K={k}"));
-            }
+        Case::KmerDeref { cid, k } => bsvk::dispatch_k!(*cid, kmer_parent(*k, out)),
+    }
+}
+
+fn kmer_parent<A: SxK>(k: usize, out: &mut Out) {
+    let Some(api) = kmer_api::<A>(Sid::Usize, k) else {
+        out.violation("MACHINERY/k-does-not-fit", format!("{:?} K={k}", A::CID));
+        return;
+    };
+    let m = alphabet::<A>().len();
+    let content: Vec<A> = syms::<A>(&bg(k, m, 5, out.seed));
+    let src = place(&content, 3, 0);
+    out.stage = "Kmer::try_from(&slice)";
+    let v = match out.catch(|| api.try_from_slice(src.view())) {
+        Ok(Ok(v)) => v,
+        other => {
+            out.violation(format!("{}/kmer-parent/cannot-construct", A::CID.name()), format!("Kmer::<_, {k}>::try_from({}) = {:?}", show(&content), other));
+            return;
         }
-    }
-}
-
-struct KV<'a> {
-    out: &'a mut Out,
-}
-
-impl KVisitor for KV<'_> {
-    fn any<A: Sx, const K: usize, S: Store>(&mut self) {}
-    fn word<A: Sx, const K: usize>(&mut self) {
-        let out = &mut *self.out;
-        let m = alphabet::<A>().len();
-        let content: Vec<A> = syms::<A>(&bg(K, m, 5, out.seed));
-        let src = place(&content, 3, 0);
-        out.stage = "Kmer::try_from(&slice)";
-        let kmer = match out.catch(|| Kmer::<A, K>::try_from(src.view())) {
-            Ok(Ok(k)) => k,
-            other => {
-                out.violation(
-                    format!("{}/kmer-parent/cannot-construct", A::CID.name()),
-                    format!("Kmer::<_, {K}>::try_from({}) = {:?}", show(&content), other.map(|r| r.map(|k| k.to_string()))),
-                );
-                return;
-            }
-        };
-        out.stage = "Deref for Kmer";
-        let p: &SeqSlice<A> = &kmer;
-        check_parent::<A>("kmer", p, &content, 2, false, out);
-        out.dim("kmer_k", K as i64);
-    }
+    };
+    out.stage = "Deref for Kmer";
+    api.with_slice(v, &mut |p: &SeqSlice<A>| check_parent::<A>("kmer", p, &content, 2, false, out));
+    out.dim("kmer_k", k as i64);
 }
 
 /// (a, b) pairs to try for a parent of length n: all of them when n is small or
